@@ -176,6 +176,9 @@ func (calc *convexHullCalculator) reduce(inputPts []float64) []float64 {
 		return inputPts
 	}
 
+	// the point-in-ring test requires a closed ring
+	ring := append(polyPts[:len(polyPts):len(polyPts)], polyPts[:calc.stride]...)
+
 	// add points defining polygon
 	reducedSet := transform.NewTreeSet(calc.layout, comparator{})
 	for i := 0; i < len(polyPts); i += calc.stride {
@@ -190,7 +193,7 @@ func (calc *convexHullCalculator) reduce(inputPts []float64) []float64 {
 	 */
 	for i := 0; i < len(inputPts); i += calc.stride {
 		pt := geom.Coord(inputPts[i : i+calc.stride])
-		if !IsPointInRing(calc.layout, pt, polyPts) {
+		if !IsPointInRing(calc.layout, pt, ring) {
 			reducedSet.Insert(pt)
 		}
 	}
